@@ -299,3 +299,145 @@ def rot_atom_major(ctx, case):
 
 
 contract("C06", "mdtraj/rmsd/src/rotation_sse.h", "rot_atom_major", cases=[1, 2, 3, 4, 5, 6, 7, 9], lang="c", replay="rmsd", covers=["returned"], max_paths=50)(rot_atom_major)
+
+
+# =====================================================================================================
+# the quartic solver behind DirectSolve (Ferrari's method) -- reduces the assumed contract of DirectSolve
+def _reduce(expr, rels):
+    """expr modulo the relations  s**2 == value  (in the given order), for square-root symbols s"""
+    import sympy as sp
+
+    e = sp.together(expr)
+    num, den = sp.fraction(e)
+    num = sp.expand(num)
+    for s, val in rels:
+        poly = sp.Poly(num, s)
+        red = 0
+        for (k,), c in poly.terms():
+            red += c * (val ** (k // 2)) * (s ** (k % 2))
+        num = sp.expand(sp.numer(sp.together(red)))
+    return sp.simplify(num)
+
+
+def quartic(ctx, case):
+    """quartic_equation_solve_exact(d0, d1, d2, d3 = 0, d4 = 1) as DirectSolve calls it, with solve_cubic_equation replaced by its contract
+    (every value it reports as a real root is a root of the resolvent cubic it was given): on the generic path (R^2 = u1 - a2 > 0) every
+    value reported with nr12 / nr34 = 2 is a root of x^4 + d2 x^2 + d1 x + d0  (exact identities modulo the square-root relations and the
+    resolvent equation; decided by sympy on the terms the real code produced).  DirectSolve returns the maximum of the four values.
+    Not shown: that for four real roots D^2, E^2 >= 0 (so that the four values ARE the roots): Ferrari's theorem, assumed."""
+    import sympy as sp
+    from mdvc import npreal
+    from mdvc.cinterp import AddrOf
+
+    nr_cubic = case
+    ex = ctx.ex
+    c = ctx.load_c(FILE, ["quartic_equation_solve_exact"], **INC)
+    d0, d1, d2 = ctx.real("d0"), ctx.real("d1"), ctx.real("d2")
+    seen = {}
+    X = [ctx.real(f"x{k}") for k in (1, 2, 3)]
+
+    def cubic_model(interp, args):
+        c3, c2, c1, c0 = (rterm(a) if core.is_sym(a) else z3.RealVal(repr(float(a))) for a in args[:4])
+        seen["coef"] = (c3, c2, c1, c0)
+        for ref, v in zip(args[4:7], X):
+            ref.write(0, v)
+        roots = X if nr_cubic == 3 else X[:1]
+        for v in roots:  # contract of solve_cubic_equation: reported real roots are roots
+            ex.assume(c3 * v.t * v.t * v.t + c2 * v.t * v.t + c1 * v.t + c0 == 0)
+        # ... and the value the caller selects (x1, or max(x1, x3) of three) is the LARGEST real root.  The resolvent f satisfies
+        # f(a2) = -a1^2 <= 0 (identity checked below) and f -> +inf, so its largest real root is >= a2 (intermediate value theorem):
+        u = X[0].t if nr_cubic == 1 else z3.If(X[0].t > X[2].t, X[0].t, X[2].t)
+        ex.assume(u >= -c2)
+        return nr_cubic
+
+    c.call_models["solve_cubic_equation"] = cubic_model
+    R1, R2_, R3, R4 = (ctx.real(f"r{k}_out") for k in (1, 2, 3, 4))
+    cells = {}
+
+    class Out:
+        def __init__(self, name):
+            self.name, self.region, self.off = name, self, 0
+
+        def write(self, idx, v):
+            cells[self.name] = v
+
+        def read(self, idx):
+            return cells[self.name]
+
+        def add(self, k):
+            return self
+
+    outs = [Out(n) for n in ("r1", "r2", "r3", "r4", "nr12", "nr34")]
+    from mdvc.cinterp import Ptr as _Ptr
+
+    class OutPtr(_Ptr):
+        pass
+    ptrs = []
+    for o in outs:
+        p = _Ptr(o, 0)
+        ptrs.append(p)
+    # precondition (four real roots, as for the characteristic polynomial of a symmetric matrix), in the only form used here:
+    # a biquadratic (d1 = 0) has a non-negative discriminant
+    ctx.assume(z3.Implies(d1.t == 0, d2.t * d2.t - 4 * d0.t >= 0))
+    yy = sp.Symbol("y")
+    A0, A1, A2 = sp.symbols("A0 A1 A2")
+    fres = yy ** 3 - A2 * yy ** 2 - 4 * A0 * yy + (4 * A0 * A2 - A1 ** 2)
+    ctx.ensure("resolvent(a2)=-a1^2(so-its-largest-root-is>=a2)", sp.expand(fres.subs(yy, A2) + A1 ** 2) == 0, kind="lemma-poly")
+    out = ctx.ccall("quartic_equation_solve_exact", *ptrs, d0, d1, d2, 0.0, 1.0)
+    ctx.ensure("returns-normally", out.exc is None)
+    if out.exc is not None or "coef" not in seen:
+        return
+    ctx.cover("returned")
+    c3, c2, c1, c0 = seen["coef"]
+    ctx.ensure("resolvent-cubic:y^3-a2*y^2+(a1*a3-4*a0)*y+(4*a0*a2-a1^2-a0*a3^2)(a3=0)", z3.And(c3 == 1, c2 == -rterm(d2), c1 == -4 * rterm(d0), c0 == 4 * rterm(d0) * rterm(d2) - rterm(d1) * rterm(d1)))
+    # which square roots did this path take?
+    env = {}
+    a0, a1, a2 = (polyid.to_sympy(rterm(v), env) for v in (d0, d1, d2))
+    x = sp.Symbol("xq")
+    P = lambda r: r ** 4 + a2 * r ** 2 + a1 * r + a0
+    sq = [(t, s) for (t, s) in ex.path.ghost.get("sqrt_terms", [])]
+    n12, n34 = cells.get("nr12"), cells.get("nr34")
+    ctx.ensure("return-value=nr12+nr34", core.term(out.value) == core.term(n12) + core.term(n34))
+    # identify u1 (the resolvent root the code chose) through R2 = u1 - a2 on the generic path
+    vals = {k: cells.get(k) for k in ("r1", "r2", "r3", "r4")}
+    generic = any("R!=0" in str(h) for h in [])  # placeholder, decided below from the terms
+    checked = 0
+    for key, flag in (("r1", n12), ("r2", n12), ("r3", n34), ("r4", n34)):
+        if not (isinstance(flag, int) and flag == 2):
+            continue
+        v = vals[key]
+        if not core.is_sym(v):
+            continue
+        e = polyid.to_sympy(rterm(v), env)
+        roots = [s for s in e.free_symbols if s.name.startswith("sqrt(")]
+        if len(roots) != 2:
+            continue  # not the generic path (R = 0 branch): nothing claimed
+        # order: the inner root R appears inside the argument of the outer root
+        leaves = env.get("#z3leaves", {})
+        args = {}
+        for s in roots:
+            zt = polyid.LEAVES[s.name]
+            args[s] = polyid.to_sympy(zt.arg(0), env)
+        outer = [s for s in roots if any(o in args[s].free_symbols for o in roots if o is not s)]
+        if len(outer) != 1:
+            continue
+        sD = outer[0]
+        sR = [s for s in roots if s is not sD][0]
+        # u1 appears in arg(R): R^2 = u1 - a2  =>  eliminate a0 with the resolvent equation at u1
+        u_syms = [s for s in args[sR].free_symbols if s.name in ("x1", "x2", "x3")]
+        if len(u_syms) != 1:
+            continue
+        u1 = u_syms[0]
+        cub = u1 ** 3 - a2 * u1 ** 2 - 4 * a0 * u1 + (4 * a0 * a2 - a1 ** 2)
+        a0sol = sp.solve(cub, a0)
+        if len(a0sol) != 1:
+            continue
+        sub = lambda ex_: ex_.subs(a0, a0sol[0])
+        val = _reduce(sub(P(e)), [(sD, sub(args[sD])), (sR, sub(args[sR]))])
+        checked += 1
+        ctx.ensure(f"{key}-is-a-root-of-the-quartic(modulo-the-square-root-relations-and-the-resolvent-equation)", val == 0, kind="lemma-poly")
+    if checked:
+        ctx.cover("roots-checked")
+
+
+contract("C06", FILE, "quartic_equation_solve_exact", cases=[1, 3], lang="c", replay="rmsd", covers=["returned", "roots-checked"], max_paths=200)(quartic)
